@@ -210,6 +210,26 @@ def run(tier, seed):
                        (u.block.id == s.block.id and u.idx < s.idx or (u.block.id != s.block.id and sy.dominates(u.block.id, s.block.id)))]
                 rep.check(rid, len(pre) >= 1, "unlink(path) precedes symlink()", s.where(), None, function=sy.cname, obj="unlink-first")
 
+        # "mkdir succeeded" is what extract_directory takes as "this run created the directory" (R6): the wrapper may say so only when
+        # mkdir() itself returned 0 - not for EEXIST, where the name may be a link or a file that was there before
+        rid3b = rep.rule("R3b", "lha_arch_mkdir reports success only when mkdir(path, mode) returned 0, on its own parameters", 2)
+        mk_ = rep.need(rid3b, mod.fn("lha_arch_mkdir"), "function lha_arch_mkdir")
+        if mk_:
+            Mk, Fk = Matcher(mk_), ctx.facts(mk_)
+            mks = [c for c in mk_.insts() if c.op == "call" and mod.callee_cname(c) in ("mkdir", "mkdirat")]
+            okc = len(mks) == 1 and mod.callee_cname(mks[0]) == "mkdir" and Mk.match(("param", 0), mks[0].ops[0], {}) is not None and Mk.match(("param", 1), mks[0].ops[1], {}) is not None
+            rep.check(rid3b, okc, "one mkdir(path, mode) on the wrapper's parameters", mk_.file, None, function=mk_.cname, obj="call")
+            if okc:
+                from ..rules import success_edges, facts_for_success
+                bad = []
+                for v, pb, b in success_edges(Fk, mk_):
+                    fs = facts_for_success(Fk, mk_, v, pb, b)
+                    if Mk.find_fact(("eq", ("inst", mks[0].id), 0), fs)[0] is None:
+                        bad.append(pb if pb is not None else b)
+                rep.check(rid3b, not bad, "every non-zero return carries mkdir(...) == 0", mk_.file,
+                          None if not bad else "success is reported on a path where mkdir did not return 0 (an existing name counts as created: its metadata would be set through whatever is there)",
+                          function=mk_.cname, obj="success")
+
         # ---- R4: deferral -----------------------------------------------------------------------------------------
         rid = rep.rule("R4", "a symlink is created for real only if the entry is not NORMAL or is_dangerous_symlink() == 0; dangerous ones become placeholders", 3)
         es = rep.need(rid, mod.fn("extract_symlink"), "function extract_symlink")
